@@ -895,7 +895,7 @@ pub fn special_routes(w: &World, s: &mut Src, prof: &Profile, gs: &mut GenState,
         _ => Some(fresh_addr(s.idx(3)).to_string()),
     };
     // malformed shapes (must be rejected): empty, forked, disconnected
-    let shape = s.weighted(&[13, 1, 1, 1]);
+    let shape = s.weighted(&[12, 1, 1, 2]);
     if shape != 0 {
         let mut ops = route_operations(w, &hops);
         match shape {
@@ -909,21 +909,44 @@ pub fn special_routes(w: &World, s: &mut Src, prof: &Profile, gs: &mut GenState,
                 }
             }
             _ => {
-                // a disconnected hop
+                // a disconnected hop: half of them trade a real pair (so that the hop can execute if the router
+                // finds its offer asset), the others name two arbitrary assets
                 let all = w.all_assets();
-                let a = w.asset_info(all[s.idx(all.len())]);
-                let b = w.asset_info(all[s.idx(all.len())]);
+                let (a, b) = if s.bool() {
+                    let p = s.idx(w.pairs.len());
+                    let sd = s.idx(2);
+                    (w.pairs[p].infos[sd].clone(), w.pairs[p].infos[1 - sd].clone())
+                } else {
+                    (w.asset_info(all[s.idx(all.len())]), w.asset_info(all[s.idx(all.len())]))
+                };
                 let at = s.idx(ops.len() + 1);
                 ops.insert(at, SwapOperation::HaloSwap { offer_asset_info: a, ask_asset_info: b });
             }
         }
         let first = &w.pairs[hops[0].0].infos[hops[0].1];
         let minimum_receive = if s.bool() { Some(Uint128::new(s.bits_u128(30))) } else { None };
+        // a second leg can only execute if the router finds its offer asset: in half of the native-entry
+        // cases the call also attaches a coin of every native asset that some hop offers without an earlier
+        // hop producing it, so that an accepted malformed route really runs
+        let mut extra: Vec<Coin> = vec![];
+        if let AssetInfo::NativeToken { denom: first_denom } = first {
+            if s.bool() {
+                let mut produced: Vec<AssetInfo> = vec![first.clone()];
+                for SwapOperation::HaloSwap { offer_asset_info, ask_asset_info } in ops.iter() {
+                    if let AssetInfo::NativeToken { denom } = offer_asset_info {
+                        if !produced.contains(offer_asset_info) && denom != first_denom && !extra.iter().any(|c| c.denom == *denom) && w.natives.contains(denom) {
+                            extra.push(Coin { denom: denom.clone(), amount: Uint128::new(1 + s.bits_u128(40)) });
+                        }
+                    }
+                    produced.push(ask_asset_info.clone());
+                }
+            }
+        }
         return Some(match first {
             AssetInfo::NativeToken { denom } => Step {
                 sender: actor,
                 call: Call::Router { msg: RouterExec::ExecuteSwapOperations { operations: ops, minimum_receive, to } },
-                funds: vec![Coin { denom: denom.clone(), amount: Uint128::new(amt) }],
+                funds: std::iter::once(Coin { denom: denom.clone(), amount: Uint128::new(amt) }).chain(extra).collect(),
             },
             AssetInfo::Token { contract_addr } => Step {
                 sender: actor,
